@@ -192,6 +192,13 @@ class EspReal(Case):
     rtol = 1e-7
     query_timeout = 120000
 
+    @property
+    def concrete(self):
+        c = self.params.get("exps")
+        if not c:
+            return None
+        return {f"{t}e{k}": v for t, vs in zip("ABCD", c) for k, v in enumerate(vs)}
+
     def inputs(self, mk):
         p = self.params
         specs = [shell_spec(mk, "ABCD"[i], l, K, M) for i, (l, K, M) in enumerate(zip(p["ls"], p["Ks"], p["Ms"]))]
@@ -268,6 +275,8 @@ def cases(tier, seed=0):
     out.append(OnNucleus(Z0="3.0", tau="0.01"))
     out.append(EspReal(ls=[0, 0], types="cc", Ks=[1, 1], Ms=[1, 1], nnuc=1))
     out.append(EspReal(ls=[1], types="c", Ks=[1], Ms=[1], nnuc=2))
+    # contracted shells with the primitives listed from diffuse to tight, concrete exponents
+    out.append(EspReal(ls=[0, 0], types="cc", Ks=[2, 2], Ms=[1, 1], nnuc=1, exps=[["3/10", "5"], ["2/5", "11/4"]]))
     if tier == "thorough":
         out.append(Esp(nao=3, npts=2, nnuc=2, tau="sym"))
         out.append(Esp(nao=4, npts=1, nnuc=1, tau="sym", norb=2))
